@@ -12,6 +12,7 @@ def merge(dst, srcs):
 c='/tmp/cases/'
 merge('/verif/findings/C14.asa_move-down_blocker-later-deleted.cases',[c+'C14.asa_move-down_blocker-later-deleted.cases',c+'C14.asa_move-down_blocker-kept.cases'])
 merge('/verif/findings/C14.ios_move-down_blocker-later-deleted.cases',[c+'C14.ios_move-down_blocker-later-deleted.cases',c+'C14.ios_move-down_blocker-kept.cases'])
+merge('/verif/findings/C14.remark-block.cases',[c+'C14.ios_insert_blocker-kept.cases',c+'C14.ios_delete_blocker-kept.cases'])
 merge('/verif/findings/C14.ios_replace-all.cases',[c+f for f in os.listdir(c) if 'delete-by-text' in f or 'insert-by-text' in f])
 EOP
 git checkout evidence/C14.json 2>/dev/null
